@@ -26,7 +26,7 @@ func init() {
 	bigBatch := " One run in 16 is a big-batch run: segments of 1-8 MiB, batches of 2-5 entries of 70 KiB-2.2 MiB (0.2-5 MiB per batch), each hit by a power loss (or process crash) before / after / in the middle of its write or fsync, sector-sized granules."
 	errVariant := " One run in 8 reaches the reopen through a failed call instead of a crash (an error chain of the C10 generator: one injected I/O error inside an append / sealing append / truncation / background rotation, one or two follow-up writes, reopen, append, reopen)."
 	propSpecs["C01"] = crashSpec("C01", bigBatch+errVariant, []string{"recoveries"})
-	propSpecs["C02"] = crashSpec("C02", " C02 emphasis: 90% power losses, 8-byte granules, large segments so that repeated crash/recover/append cycles hit the same tail file and stale frames of earlier torn batches lie behind the new tail (probe stale_bytes_behind)."+bigBatch, []string{"recoveries"})
+	propSpecs["C02"] = crashSpec("C02", " C02 emphasis: 90% power losses, 8-byte granules, large segments so that repeated crash/recover/append cycles hit the same tail file and stale frames of earlier torn batches lie behind the new tail (probe stale_bytes_behind). One run in 8 reaches the reopen through an injected I/O error (error chains of the C10 generator) instead of a crash."+bigBatch, []string{"recoveries"})
 	propSpecs["C02"].RequiredFired = append(propSpecs["C02"].RequiredFired, "stale_bytes_behind", "files_torn")
 	propSpecs["C03"] = crashSpec("C03", " C03 adds after every recovery a usability script (append at Last+1, a second append, stable set, head and tail DeleteRange, clean Close/Open, all compared with the model); refusal of a legal call, a deadlock or a step-budget overrun is a violation."+errVariant, []string{"recoveries", "usability_scripts"})
 	propSpecs["C04"] = crashSpec("C04", " C04 emphasis: crashes targeted at the seam calls inside DeleteRange (ForceSeal write/sync, CommitState, Create, finalizer Delete) and in the appends that re-use truncated indexes. A quarter of the runs are two-crash truncation chains with a fixed skeleton and drawn sizes / positions / fault placement: recover-then-truncate (an append killed between write and fsync with the page cache surviving; recovery shows the batch; a head truncation reaching into it; power loss before the next write) and torn-seal (a tail truncation hit by a power loss inside its seal writes or metadata commit; re-appends at the truncated indexes; a second crash)."+bigBatch, []string{"recoveries", "truncations"})
